@@ -1,0 +1,98 @@
+//! Hooks for external runtime verification. Only compiled with `--features verif`.
+//!
+//! Everything in here is additive: re-exports of otherwise crate-private types, thin wrappers
+//! around private functions, and two optional process-wide callbacks (file-system effects and
+//! named synchronisation points). With no callback installed a hook call is one lock-free load.
+use std::path::Path;
+use std::sync::atomic::{AtomicBool, AtomicUsize, Ordering};
+use std::sync::{Arc, RwLock};
+
+pub use crate::bitvec::{BitVec, BitVecMut};
+pub use crate::disk_store::file_writer::{
+    BlobWriter, FileBlobWriter, VersionedChecksummedBlobWriter,
+};
+pub use crate::disk_store::meta_store::{MetaStore, PartitionMetadata, SubpartitionMetadata};
+pub use crate::disk_store::partition_segment::PartitionSegment;
+pub use crate::disk_store::wal_segment::WalSegment;
+pub use crate::engine::data_types::{BasicType, EncodingType};
+pub use crate::mem_store::codec::{Codec, CodecOp};
+pub use crate::mem_store::column::{Column, DataSection, DataSource};
+pub use crate::mem_store::column_buffer::ColumnBuffer;
+
+/// kind ∈ {"mkdir", "create", "write", "sync", "rename", "remove"}; `after` is false before the
+/// primitive effect is issued and true once it has returned.
+pub type FsHook = dyn Fn(&'static str, &Path, bool) + Send + Sync;
+pub type SyncHook = dyn Fn(&'static str, &str) + Send + Sync;
+
+static FS_HOOK_SET: AtomicBool = AtomicBool::new(false);
+static SYNC_HOOK_SET: AtomicBool = AtomicBool::new(false);
+static FS_HOOK: RwLock<Option<Arc<FsHook>>> = RwLock::new(None);
+static SYNC_HOOK: RwLock<Option<Arc<SyncHook>>> = RwLock::new(None);
+
+/// Number of `InnerLocustDB` values currently alive (incremented on creation, decremented on drop).
+pub static LIVE_INSTANCES: AtomicUsize = AtomicUsize::new(0);
+
+pub fn set_fs_hook(hook: Option<Arc<FsHook>>) {
+    FS_HOOK_SET.store(hook.is_some(), Ordering::SeqCst);
+    *FS_HOOK.write().unwrap() = hook;
+}
+
+pub fn set_sync_hook(hook: Option<Arc<SyncHook>>) {
+    SYNC_HOOK_SET.store(hook.is_some(), Ordering::SeqCst);
+    *SYNC_HOOK.write().unwrap() = hook;
+}
+
+#[inline]
+pub(crate) fn fs_effect(kind: &'static str, path: &Path, after: bool) {
+    if FS_HOOK_SET.load(Ordering::Relaxed) {
+        let hook = FS_HOOK.read().unwrap().clone();
+        if let Some(hook) = hook {
+            hook(kind, path, after);
+        }
+    }
+}
+
+#[inline]
+pub(crate) fn sync_point(label: &'static str, detail: &str) {
+    if SYNC_HOOK_SET.load(Ordering::Relaxed) {
+        let hook = SYNC_HOOK.read().unwrap().clone();
+        if let Some(hook) = hook {
+            hook(label, detail);
+        }
+    }
+}
+
+pub fn live_instances() -> usize {
+    LIVE_INSTANCES.load(Ordering::SeqCst)
+}
+
+pub fn sanitize_table_name(table_name: &str) -> String {
+    crate::disk_store::storage::verif_sanitize_table_name(table_name)
+}
+
+pub fn partition_filename(id: u64, subpartition_key: &str) -> String {
+    crate::disk_store::storage::verif_partition_filename(id, subpartition_key)
+}
+
+pub fn is_filesystem_safe(column_name: &str) -> bool {
+    crate::scheduler::inner_locustdb::verif_is_filesystem_safe(column_name)
+}
+
+/// Groups columns into sub-partitions exactly as a flush does.
+pub fn subpartition(
+    opts: &crate::Options,
+    columns: Vec<Arc<Column>>,
+) -> (Vec<SubpartitionMetadata>, Vec<Vec<Arc<Column>>>) {
+    crate::scheduler::inner_locustdb::verif_subpartition(opts, columns)
+}
+
+/// One catalogue entry as seen by a running database: (table, partition id, offset, len,
+/// [(sub-partition key, last column)]).
+#[derive(Debug, Clone, PartialEq, Eq)]
+pub struct VerifPartition {
+    pub table: String,
+    pub id: u64,
+    pub offset: usize,
+    pub len: usize,
+    pub subpartitions: Vec<(String, String)>,
+}
